@@ -4,6 +4,7 @@ import (
 	"fmt"
 	"go/ast"
 	"go/constant"
+	"go/token"
 	"go/types"
 	"strings"
 
@@ -17,6 +18,12 @@ func init() { Registry["C11"] = Check{Run: checkC11} }
 
 // psIOMethods returns the methods of the proving-system type that take an io.Writer (writers) or io.Reader (readers).
 func psIOMethods(p *core.Program, ix *funcIndex, ps *types.Named) (writers, readers []flow.FuncUnit) {
+	writers, readers, _, _ = psIOMethodsParts(p, ix, ps)
+	return
+}
+
+// psIOMethodsParts also returns the methods that are parts of a writer / of a reader (called by it on its own receiver).
+func psIOMethodsParts(p *core.Program, ix *funcIndex, ps *types.Named) (writers, readers, writerParts, readerParts []flow.FuncUnit) {
 	for _, u := range ix.all {
 		fd := u.Node.(*ast.FuncDecl)
 		obj := u.Pkg.TypesInfo.Defs[fd.Name].(*types.Func)
@@ -34,6 +41,41 @@ func psIOMethods(p *core.Program, ix *funcIndex, ps *types.Named) (writers, read
 			}
 		}
 	}
+	// a method that another of these methods calls on its own receiver is a part of that method (readHeader, readKeys, a
+	// shared writeTo(w, raw)): it is read in place there (sectionEventsWith) and is not a writer/reader of its own — unless
+	// it is exported, in which case callers outside can use it directly
+	called := map[*types.Func]bool{}
+	for _, u := range append(append([]flow.FuncUnit{}, writers...), readers...) {
+		info := u.Pkg.TypesInfo
+		fd := u.Node.(*ast.FuncDecl)
+		var recv *types.Var
+		if fd.Recv != nil && len(fd.Recv.List) == 1 && len(fd.Recv.List[0].Names) == 1 {
+			recv, _ = info.Defs[fd.Recv.List[0].Names[0]].(*types.Var)
+		}
+		ast.Inspect(fd.Body, func(n ast.Node) bool {
+			if call, ok := n.(*ast.CallExpr); ok {
+				if sel, ok := ast.Unparen(call.Fun).(*ast.SelectorExpr); ok && recv != nil && identVar(info, sel.X) == recv {
+					if fn, _ := typeutil.Callee(info, call).(*types.Func); fn != nil {
+						called[fn.Origin()] = true
+					}
+				}
+			}
+			return true
+		})
+	}
+	keep := func(us []flow.FuncUnit) (out, parts []flow.FuncUnit) {
+		for _, u := range us {
+			obj := u.Pkg.TypesInfo.Defs[u.Node.(*ast.FuncDecl).Name].(*types.Func)
+			if called[obj] && !obj.Exported() {
+				parts = append(parts, u)
+				continue
+			}
+			out = append(out, u)
+		}
+		return out, parts
+	}
+	writers, writerParts = keep(writers)
+	readers, readerParts = keep(readers)
 	return
 }
 
@@ -110,6 +152,7 @@ type u32Helper struct {
 	Order  string
 	Reader bool
 	ValArg int // writer: index of the uint32 argument
+	DstArg int // reader: index of a *uint32 argument the word is stored through (-1: the word is the first result)
 }
 
 func summariseU32Helper(p *core.Program, u flow.FuncUnit) (u32Helper, bool) {
@@ -120,6 +163,8 @@ func summariseU32Helper(p *core.Program, u flow.FuncUnit) (u32Helper, bool) {
 	info := u.Pkg.TypesInfo
 	var stream *types.Var
 	valArg := -1
+	dstArg := -1
+	var dstVar *types.Var
 	idx := 0
 	for _, f := range fd.Type.Params.List {
 		for _, n := range f.Names {
@@ -128,6 +173,10 @@ func summariseU32Helper(p *core.Program, u flow.FuncUnit) (u32Helper, bool) {
 				stream = v
 			} else if v != nil && isUint32(v.Type()) {
 				valArg = idx
+			} else if v != nil {
+				if pt, ok := v.Type().(*types.Pointer); ok && isUint32(pt.Elem()) {
+					dstArg, dstVar = idx, v
+				}
 			}
 			idx++
 		}
@@ -159,6 +208,13 @@ func summariseU32Helper(p *core.Program, u flow.FuncUnit) (u32Helper, bool) {
 				if o, meth, ok := byteOrderCall(info, call); ok && meth == "Uint32" && len(call.Args) == 1 && filled != nil && baseIdentVar(info, call.Args[0]) == filled {
 					if ret, isRet := n.(*ast.ReturnStmt); isRet && len(ret.Results) > 0 && ast.Unparen(ret.Results[0]) == ast.Expr(call) {
 						order, done = o, true
+						dstArg = -1
+					}
+					// *dst = order.Uint32(buf)
+					if as, isAs := n.(*ast.AssignStmt); isAs && len(as.Lhs) == 1 && len(as.Rhs) == 1 && ast.Unparen(as.Rhs[0]) == ast.Expr(call) && dstVar != nil {
+						if st, isStar := ast.Unparen(as.Lhs[0]).(*ast.StarExpr); isStar && identVar(info, st.X) == dstVar {
+							order, done = o, true
+						}
 					}
 				}
 			} else {
@@ -178,7 +234,7 @@ func summariseU32Helper(p *core.Program, u flow.FuncUnit) (u32Helper, bool) {
 	if !done || order == "" {
 		return u32Helper{}, false
 	}
-	return u32Helper{Order: order, Reader: reader, ValArg: valArg}, true
+	return u32Helper{Order: order, Reader: reader, ValArg: valArg, DstArg: dstArg}, true
 }
 
 // sectionEvents interprets the success path of a proving-system I/O method as a sequence of section events.
@@ -250,7 +306,7 @@ func sectionEventsWith(p *core.Program, u flow.FuncUnit, isWriter bool, bind map
 		// x, …, err := readHelper(r)   and later   F(x) = x
 		if as, ok := n.(*ast.AssignStmt); ok && len(as.Rhs) == 1 {
 			if call, ok := ast.Unparen(as.Rhs[0]).(*ast.CallExpr); ok {
-				if h, ok := helperOf(call); ok && h.Reader && len(as.Lhs) >= 1 {
+				if h, ok := helperOf(call); ok && h.Reader && h.DstArg < 0 && len(as.Lhs) >= 1 {
 					if f, ok := recvField(info, as.Lhs[0], recv); ok {
 						evs = append(evs, ioEvent{Kind: "u32", Order: h.Order, Field: f, Pos: p.Pos(n.Pos())})
 					} else if v := identVar(info, as.Lhs[0]); v != nil {
@@ -310,6 +366,16 @@ func sectionEventsWith(p *core.Program, u flow.FuncUnit, isWriter bool, bind map
 				return true
 			}
 			full := fn.FullName()
+			// readHelper(r, &recv.F)
+			if h, ok := helperOf(call); ok && h.Reader && h.DstArg >= 0 && h.DstArg < len(call.Args) {
+				arg := call.Args[h.DstArg]
+				if ue, isU := ast.Unparen(arg).(*ast.UnaryExpr); isU && ue.Op == token.AND {
+					if f, ok := recvField(info, ue.X, recv); ok {
+						evs = append(evs, ioEvent{Kind: "u32", Order: h.Order, Field: f, Pos: p.Pos(call.Pos())})
+						return false
+					}
+				}
+			}
 			// writeHelper(w, recv.F)
 			if h, ok := helperOf(call); ok && !h.Reader && h.ValArg >= 0 && h.ValArg < len(call.Args) {
 				if f, ok := recvField(info, call.Args[h.ValArg], recv); ok {
@@ -453,7 +519,7 @@ func checkC11(p *core.Program, r *core.Report) {
 		r.Violation("O11.1", "anchor server.Run", "-", "cannot discover the proving-system type")
 		return
 	}
-	writers, readers := psIOMethods(p, ix, ps)
+	writers, readers, writerParts, readerParts := psIOMethodsParts(p, ix, ps)
 	r.Count("writers", len(writers))
 	r.Count("readers", len(readers))
 	r.Floor("writers", 2)
@@ -563,7 +629,19 @@ func checkC11(p *core.Program, r *core.Report) {
 
 	// O11.2 errors
 	ord := map[string]int{}
+	errUnits := append([]seq{}, seqs...)
+	seenUnit := map[ast.Node]bool{}
 	for _, s := range seqs {
+		seenUnit[s.u.Node] = true
+	}
+	for _, pu := range append(append([]flow.FuncUnit{}, writerParts...), readerParts...) {
+		if !seenUnit[pu.Node] {
+			seenUnit[pu.Node] = true
+			errUnits = append(errUnits, seq{u: pu})
+			r.AnalysedFn(pu.Name)
+		}
+	}
+	for _, s := range errUnits {
 		sites := flow.Analyse(s.u, flow.Config{Select: chainSelect(s.u.Pkg.TypesInfo)})
 		for _, site := range sites {
 			if site.Form == "noerror" {
@@ -581,7 +659,7 @@ func checkC11(p *core.Program, r *core.Report) {
 	r.Floor("I/O error sites", 8)
 
 	// reader: section objects constructed for BN254
-	for _, rd := range readers {
+	for _, rd := range append(append([]flow.FuncUnit{}, readers...), readerParts...) {
 		info := rd.Pkg.TypesInfo
 		n := 0
 		ast.Inspect(rd.Node, func(m ast.Node) bool {
